@@ -2,7 +2,7 @@
    leaves = the array parameters, regardless of construction history.
    Only statements closed by [exact]; models and lemmas live in C18_Registry.v, C18_Store.v, C18_Sigs.v. *)
 From Coq Require Import List String Bool Arith.
-From Core Require Import C18_Registry C18_Store C18_Sigs.
+From Core Require Import C18_Registry C18_Store C18_Sigs C18_Uniform.
 Import ListNotations.
 
 (* unflatten (flatten A) = A: same class, same fields (annotations included), in EVERY registry state, i.e. after
@@ -54,6 +54,25 @@ Print Assumptions C18_history_independent_refuted.
 Theorem C18_leaves_not_only_arrays_refuted : exists (h : list event) (k : ctor), existsb (fun l => negb (is_array l)) (leaves_after h k) = true.
 Proof. exact leaves_not_only_arrays_refuted. Qed.
 Print Assumptions C18_leaves_not_only_arrays_refuted.
+
+(* the positive half (partial: under a uniformity hypothesis the pinned tree does not guarantee): if every class is used
+   uniformly - a table U says per class and attribute whether it holds arrays, and every executed assignment agrees -
+   the registry always agrees with U, and the leaves of an operator whose classes are registered are the ideal leaves
+   of U after ANY two such histories. What is missing for the full statement: the hypothesis itself - BlockDiag.multiplicities
+   and Sliced.slices can be assigned both kinds of values (the refutations above). *)
+Theorem C18_uniform_agree : forall (U : cls -> name -> bool) (h : list event) (r : reg),
+  agree U r -> uniform U h r -> agree U (run_hist h r).
+Proof. exact uniform_agree. Qed.
+Print Assumptions C18_uniform_agree.
+Theorem C18_history_independent_partial : forall (U : cls -> name -> bool) (h1 h2 : list event) (r0 : reg) (v : val),
+  agree U r0 -> uniform U h1 r0 -> uniform U h2 r0 ->
+  covered (run_hist h1 r0) v = true -> covered (run_hist h2 r0) v = true ->
+  leaves (run_hist h1 r0) v = leaves (run_hist h2 r0) v /\ leaves (run_hist h1 r0) v = leavesU U v.
+Proof. exact history_independent_partial. Qed.
+Print Assumptions C18_history_independent_partial.
+Example C18_uniform_example : agree U_ex reg0 /\ uniform U_ex (h_plain ++ [ECons (k_blockdiag mult_list)]) reg0.
+Proof. exact uniform_example. Qed.
+Print Assumptions C18_uniform_example.
 
 (* heap model: for ALL operation sequences whose write targets are fresh or library-owned, caller-owned cells keep
    their contents *)
